@@ -177,6 +177,22 @@ CHECKS.update(
     ),
 )
 
+CHECKS.update(
+    C15=dict(
+        category="model_checking",
+        text="The real get_cell_size (per-terminal-size cache), cached / terminal_size_cached, the query and window-size-swap toggles, "
+        "set_cell_ratio / get_cell_ratio and the memoized terminal-identity getters (incl. TextImage._is_on_kitty) run on a symbolic terminal "
+        "whose size in cells and pixels are z3 integers (fresh ones at every resize). Histories of k operations chosen by solver-forked "
+        "selectors; after every getter the value must equal a fresh computation for the current size and settings, memoized bodies run at "
+        "most once until invalidated, results from a period with queries disabled are discarded on re-enabling.",
+        note="Trusted: z3, engine, environment stubs (terminal size, TIOCGWINSZ, query_terminal). Integer quotients are uninterpreted "
+        "(the property is about staleness, not arithmetic). Pixel size may change only together with the size in cells relative to the "
+        "library's last evaluation (documented caching per terminal size). Thread interleavings of first calls: see C14.",
+        design="3 C15",
+        technique=TECH_M,
+    ),
+)
+
 PENDING = {}
 
 
